@@ -113,8 +113,9 @@ func runC06(c *Ctx) {
 	}
 	importRules(c, runC08, map[string]string{"C08.R1": "C06.R8", "C08.R2": "C06.R8"}, map[string]string{"C06.R8": "rules disabled by badfilter never survive the filter, whatever their position (shared with C08.R1/R2)"})
 	checkDocumentOnly(c, "C06.R9")
+	importRules(c, runC11, map[string]string{"C11.R5": "C06.R10"}, nil)
 	importRules(c, runC01, map[string]string{"C01.R2": "C06.R10", "C01.R3": "C06.R10", "C01.R4": "C06.R10", "C01.R6": "C06.R10"},
-		map[string]string{"C06.R10": "the precedence is applied to every matching rule, whichever lookup table holds it: engine consults every table, shortcut / domain / sequential tables are complete (shared with C01.R2-R4/R6)"})
+		map[string]string{"C06.R10": "the precedence is applied to every matching rule, whichever lookup table holds it: engine consults every table, shortcut / domain / sequential tables are complete, the storage scanner visits every list however the rules are split (shared with C01.R2-R4/R6, C11.R5)"})
 	inl := inlineOnly("(*rules.NetworkRule).isDocumentWhitelistRule", "(*rules.NetworkRule).IsOptionEnabled", "(*rules.NetworkRule).IsGeneric")
 	nilOf := func(u *U, e *E) *E { return u.mk("nil", "", e.Typ) }
 
